@@ -683,6 +683,20 @@ fn zz_case(ctx: &mut Ctx, rep: &mut Report, x: u64, p: u64) {
             Err(m) => rep.oracle_fail("zigzag-panic", &m, case.clone()),
         }
     }
+    // canonical code (Props.C03.zigzag_code_canonical): where `x + 2p` does not wrap, the code word
+    // `x` is the code of the value it decodes to
+    if let Some(s) = p.checked_mul(2).and_then(|pp| pp.checked_add(x)) {
+        let _ = s;
+        rep.count("branch_zz_canonical_checked");
+        match d {
+            Ok(val) => {
+                if guarded(|| zigzag_encode(val, p)) != Ok(x) {
+                    rep.oracle_fail("zigzag-code-not-canonical", &format!("zigzag_encode(zigzag_decode({x},{p}),{p}) != {x}"), case.clone());
+                }
+            }
+            Err(m) => rep.oracle_fail("zigzag-panic", &m, case.clone()),
+        }
+    }
 }
 
 fn prim_cases(ctx: &mut Ctx, rep: &mut Report) {
